@@ -108,6 +108,40 @@ def req_C01(r, tier):
         out.append(("felv26.mul", "felv26.mul %s %s" % (ilst(la_), ilst(lb_))))
         out.append(("felv26.square", "felv26.square %s" % ilst(la_)))
         out.append(("felv26.square2", "felv26.square2 %s" % ilst(la_)))
+    # vector field with UNREDUCED lane limbs (every admissible representation entering the vector backend)
+    for A in ("avx2", "ifma"):
+        for i in range(sz(tier, 60, 2000)):
+            ks = [r.choice(kinds) for _ in range(8)]
+            bits = r.choice([52, 52, 53, 54])
+            L8 = [ilst(limbs51(r, bits, k)) for k in ks]
+            L8r = [ilst(limbs51(r, 52, k)) for k in ks]
+            out.append(("vfel.%s.roundtrip:%s" % (A, ks[0]), "vfel.%s.roundtrip %s" % (A, " ".join(L8[:4]))))
+            out.append(("vfel.%s.reduce" % A, "vfel.%s.reduce %s" % (A, " ".join(L8[:4]))))
+            out.append(("vfel.%s.mul:%s" % (A, ks[0]), "vfel.%s.mul %s" % (A, " ".join(L8r))))
+            out.append(("vfel.%s.square" % A, "vfel.%s.square %s" % (A, " ".join(L8r[:4]))))
+            out.append(("vfel.%s.neg" % A, "vfel.%s.neg %s" % (A, " ".join(L8r[:4]))))
+            out.append(("vfel.%s.diff_sum" % A, "vfel.%s.diff_sum %s" % (A, " ".join(L8r[:4]))))
+            out.append(("vfel.%s.add" % A, "vfel.%s.add %s" % (A, " ".join(L8r))))
+    for i in range(sz(tier, 30, 600)):
+        # unreduced coordinates of a valid point entering scalar multiplication (run-time selected backend and direct copies)
+        k = 1 + r.below(L - 1)
+        x, y = smul(k, B)
+        z = 1 + r.below(P - 1)
+        co = [x * z % P, y * z % P, z, x * y % P * z % P]
+        def unred(v):
+            v = v + r.below(3) * P if r.below(2) else v
+            l5 = [(v >> (51 * j)) & ((1 << 51) - 1) for j in range(4)] + [v >> 204]
+            # move weight between adjacent limbs without changing the value: limb j += 2^51*t, limb j+1 -= t
+            if r.below(2):
+                j = r.below(4)
+                t = min(l5[j + 1], 1 + r.below(3))
+                l5[j] += t << 51; l5[j + 1] -= t
+            return ilst(l5)
+        s_ = r.choice([1, 2, 3, 8, r.below(L), r.below(1 << 255)])
+        args = " ".join(unred(c) for c in co) + " " + H(s_)
+        out.append(("ed.mul_raw_limbs", "ed.mul_raw_limbs " + args))
+        for c in ("serial", "avx2", "ifma"):
+            out.append(("ed.direct.%s.mul_limbs" % c, "ed.direct.%s.mul_limbs %s" % (c, args)))
     for la, a in pool:
         out.append(("fel51.from_bytes:" + la, "fel51.from_bytes " + H(a)))
         out.append(("fel26.from_bytes:" + la, "fel26.from_bytes " + H(a)))
